@@ -24,3 +24,5 @@ import Brax.Props.C13
 import Brax.Props.C11
 import Brax.Props.C12
 import Brax.Props.C20
+import Brax.Props.C10
+import Brax.Props.C03
